@@ -19,7 +19,8 @@ SPEC = {
                     "index 0 and negative indices wrap like Python lists (outside the property's quantifier, modelled for fidelity)"],
 }
 
-TAGS = ["a", "b", "c", "dup", "zz"]
+# tags are arbitrary strings: some look like numbers (scan numbers are a natural tag), and a string is a tag whatever it looks like
+TAGS = ["a", "b", "c", "dup", "1", "2", "07", "zz"]
 
 
 def gen_history(rng, maxlen):
@@ -36,7 +37,7 @@ def gen_history(rng, maxlen):
     for _ in range(rng.randint(1, maxlen)):
         which = rng.choice(["refl", "orient"])
         k = rng.choices(["add", "edit", "get", "del", "swap", "len", "tagnum"], weights=[30, 14, 18, 12, 14, 4, 8])[0]
-        tag = rng.choice(TAGS[:4] + [None, None])
+        tag = rng.choice(TAGS[:7] + [None, None, None])
         if k == "add":
             approx[which] += 1
             earlier = [o for o in ops if o[0] == which and o[1] == "add"]
